@@ -7,7 +7,7 @@ import cli, clitrace, c04
 def run(tier):
     res = Result("C12", tier, "model_checking")
     res.assumptions = ["rules files deliberately share rule and variable names (the generators always use r1.., g0.., l1, v1..)",
-                       "directory walks are exercised with -a (alphabetical); -m (last modified) only orders the same files"]
+                       "directory walks: selection by extension and order with --alphabetical / --last-modified are specified by GuardFiles; modification times are distinct"]
     # 1. the driver model: exactly the parsed-rules x data pairs are evaluated, each with the
     #    outcome of that pair alone (MC_Cli.BatchIsUnionOfPairs), for every order and code path
     r = tlc("MC_Cli", cfg="MC_Cli" if tier == "quick" else "MC_Cli_thorough", workers=8, timeout=2400, tag="mccli12", heap="8g")
@@ -80,11 +80,16 @@ def run(tier):
     #    plus the hook events of those runs (a fresh RootScope per test case)
     import c16
     c16.run_trace(res, tier)
+    # 5. which files a run reads from directory arguments and in which order (GuardFiles)
+    import files
+    files.check(res, tier)
     res.cov["rule"] = ("MC_Cli.BatchIsUnionOfPairs over all driver scenarios; batches of 2-3 generated rules files x 2-4 documents in "
                        "shuffled orders as files, directories (-a) and payload lists, every pair of the batch judged against Denote of "
                        "that pair alone; hook traces: one fresh RootScope per evaluation and no cache hit / memo read before a computation "
                        "in the same scope (TraceMemo); `cfn-guard test` files with 1-4 cases whose inputs make the same rule differ "
-                       "between the cases (TraceTest + TraceMemo over the test runs' hook events)")
+                       "between the cases (TraceTest + TraceMemo over the test runs' hook events); directory arguments: MC_Files over every small tree, "
+                       "enumerated and random trees (awkward names, modification times unrelated to names) built on disk, files read and pair order "
+                       "with --alphabetical and --last-modified validated by TraceFiles")
     return res.finish()
 
 
